@@ -1,10 +1,13 @@
 package zzbql
 
 import (
-	verif "github.com/google/badwolf/internal/zzverif"
+	"time"
+
 	"github.com/google/badwolf/bql/table"
+	verif "github.com/google/badwolf/internal/zzverif"
 	"github.com/google/badwolf/storage/memory"
 	"github.com/google/badwolf/triple"
+	"github.com/google/badwolf/triple/predicate"
 )
 
 // rowKeys renders every row as the tab-joined printed cells of bs (symbolic text).
@@ -203,11 +206,30 @@ func HarnessC14Procs() {
 			ts = append(ts, mustTriple(f, mustImmutable("b"), triple.NewNodeObject(mustNode("/i", string([]byte{'a' + byte(i), '0' + byte(j)})))))
 		}
 	}
-	st, _ := newStoreWith("?g", ts)
 	q := `select ?s, ?o, ?z from ?g where { ?s "a"@[] ?o . ?o "b"@[] ?z } ;`
-	if verif.Choice("order", 2) == 1 {
+	which := verif.Choice("order", 3)
+	if which == 1 {
 		q = `select ?s, ?o, ?z from ?g where { ?o "b"@[] ?z . ?s "a"@[] ?o } ;`
 	}
+	bounded := which == 2
+	if bounded {
+		// the per-row workers each narrow the lookup of the second clause by the row's
+		// own anchor: "b"@[?t,] keeps the item anchored at the row's instant and
+		// drops the one anchored an hour before it
+		ts = nil
+		for i := 0; i < n; i++ {
+			at := anchors[0].Add(time.Duration(i) * 24 * time.Hour)
+			u, f := mustNode("/u", string([]byte{'a' + byte(i)})), mustNode("/f", string([]byte{'a' + byte(i)}))
+			pa, _ := predicate.NewTemporal("a", at)
+			pb0, _ := predicate.NewTemporal("b", at)
+			pb1, _ := predicate.NewTemporal("b", at.Add(-time.Hour))
+			ts = append(ts, mustTriple(u, pa, triple.NewNodeObject(f)),
+				mustTriple(f, pb0, triple.NewNodeObject(mustNode("/i", string([]byte{'a' + byte(i), '0'})))),
+				mustTriple(f, pb1, triple.NewNodeObject(mustNode("/i", string([]byte{'a' + byte(i), '1'})))))
+		}
+		q = `select ?s, ?o, ?z from ?g where { ?s "a"@[?t] ?o . ?o "b"@[?t,] ?z } ;`
+	}
+	st, _ := newStoreWith("?g", ts)
 	tbl, err := runBQL(st, q, verif.Param("CHAN", 0), verif.Param("BULK", 10))
 	verif.Reach("executed")
 	verif.Assert(err == nil, "C14/procs/query-succeeds")
@@ -217,6 +239,9 @@ func HarnessC14Procs() {
 	var want []string
 	for i := 0; i < n; i++ {
 		for j := 0; j < 2; j++ {
+			if bounded && j == 1 {
+				continue
+			}
 			want = append(want, "/u<"+string([]byte{'a' + byte(i)})+">\t/f<"+string([]byte{'a' + byte(i)})+">\t/i<"+string([]byte{'a' + byte(i), '0' + byte(j)})+">\t")
 		}
 	}
